@@ -62,7 +62,7 @@ claim('C06', 'Coq refinement proof (file/dict/redis bookkeeping refine a finite 
 claim('C10', 'Coq proof (set equations of cleanup per mode and backend for ANY store content) + differential evaluation of the model in coqc against the real `jug cleanup` command',
       'Theorems (Props/C10.v): for every store content (active and foreign results, packed/unpacked/both, held and failed locks, temp files) '
       'and every active set: default and --keep-locks leave exactly results /\\ active; --keep-locks leaves all locks; --locks-only removes all '
-      'locks and nothing else; --failed-only removes exactly the failed locks; on file (packed or not), dict and redis.  Tie: generated '
+      'locks and nothing else; --failed-only removes exactly the failed locks; on file (packed or not), dict and redis; link to the execution protocol (Proofs/ExecCleanupFacts.v): on any store representing a protocol state `--locks-only` / `--failed-only` produce a store representing the state after the protocol\'s ERemoveLocks / EReleaseFailed events (recovery of C13, retry of C11), and every mode given the jugfile\'s tasks leaves exactly the results the workers stored.  Tie: generated '
       'store contents x 4 modes x 4 backends through the real CleanupCommand; list()/listlocks()/failed marks compared with the model.',
       'Kernel + vm_compute; model of os.walk filtering/pack pruning hand-written and tied by differential cases; fake redis; '
       'no concurrent modification during the command.',
@@ -120,7 +120,7 @@ claim('C09', 'Coq proof (memoised DFS = reverse reachability by induction on fue
       'Theorems (Props/C09.v) for every well-formed task graph (acyclic, in ANY creation order - a dependency may be created after its consumer; duplicate calls allowed), every target matcher and every store state: the command hands to '
       'remove_many exactly {t | t matches or depends transitively on a match}; the shell\'s invalidate(s) visits exactly s and its dependents (any graph); '
       'command and shell remove the same set for the same target; exactly those keys lose their result, all others are untouched; dependency-closedness '
-      'is preserved; a following execute runs exactly the tasks without result, each once.  Tie: generated jugfiles (edges via args, kwargs, containers, '
+      'is preserved; a following execute runs exactly the tasks without result, each once - also with the N-worker execution protocol of C01/C02 in place of the sequential execute: every quiet run of any number of workers calls no function of a task that kept its result and each invalidated function exactly once if it gets stored again (Proofs/ExecInvalidateFacts.v).  Tie: generated jugfiles (edges via args, kwargs, containers, '
       'tasklets, task-valued indices, mapped sequences/slices/elements, CustomHash, identity) x bare/dotted/regex targets x full/partial/non-closed/packed/'
       'empty stores x file/packed/dict/fake-redis: exact remove_many argument, exact remove() sequence of every shell call, keys after, printed table, '
       'keys dumped by the next execute; oracle re-evaluates the program after the target\'s functions changed.',
@@ -138,14 +138,14 @@ claim('C15', 'Coq proof (classification = specification by case analysis; counte
       'DESIGN.md sec. 3 C15')
 claim('C16', 'Coq proof (nested induction over the argument universe; frame / blame / stability of resolution; slice arithmetic via C17) + differential evaluation of the model in coqc on exhaustive small and random argument structures + real jug execute/invalidate runs',
       'Theorems for ALL argument structures and stores (Props/C16.v): value() of base[idx] / Tasklet(base, f) / iteratetask / return_tuple / CustomHash / NoHash / containers '
-      'is the operation applied to the values at any nesting, indices being arbitrary arguments (tasks, tasklets); a mapped sequence is the concatenation of its blocks, '
+      'is the operation applied to the values at any nesting, indices being arbitrary arguments (tasks, tasklets); an object value() hands over as it is (instances of list/tuple/dict subclasses - namedtuple, OrderedDict, defaultdict ...) reaches the function unchanged whatever the store holds, while the tasks inside it that the walk declares are dependencies: its consumer waits for them and is invalidated with them (C16_opaque_unchanged / _declared_waits / _declared_invalidated); sets/frozensets are looked into by neither; a mapped sequence is the concatenation of its blocks, '
       'a slice (any range, slices of slices) is Python\'s list slice of the whole value; resolution reads the store only at declared dependencies, a missing result met during '
       'resolution is a declared dependency (can_run => never dies in load), outcomes are stable under store extension; Task.dependencies\' walk declares exactly the tasks '
       'occurring underneath (bases, indices, blocks, CustomHash, containers); hence a consumer depends on, and is invalidated with (C09), every task underneath.  '
       'Tie: every argument tree of <= 3/4 nodes and random deep compositions as real jug objects, value() outcome and dependencies() compared with the model in coqc; '
       'direct oracles (reference evaluation, reads within dependencies, can_run, store keys) and real `jug execute`/`jug invalidate` on a dict store.',
       'Kernel + vm_compute; results are plain Python values (indexing into str/bytes, bool indices, return_tuple over dict/str are outside the model and only tested directly); '
-      'mapped-sequence theorems assume what jug.mapreduce.map builds (blocks = break_up of the values, map_step >= 1; C17); exception kinds not distinguished; '
+      'container-subclass instances are seen by the model as their base kind when plain and as `AOpaque declared v` when they hold tasks; their Python type is checked by the direct oracles; mapped-sequence theorems assume what jug.mapreduce.map builds (blocks = break_up of the values, map_step >= 1; C17); exception kinds not distinguished; '
       'harness: spec generator/realiser, reference evaluator, interning.',
       'DESIGN.md sec. 3 C16')
 
